@@ -118,19 +118,21 @@ def check_case(ref, W, fs, s):
             if ">" not in s and not x.match(s):
                 bad(f"result-does-not-match-search/{fname}", [r, s], "match")
                 break
-        # (3) '**'
-        if s.count("/**") == 1:
+        # (3) '**': the same search with '**' replaced by 0..n '/*' levels, restricted to the leaf-typed readings of the
+        #     filled string (the filter is applied to each of them afterwards, as for any typed search)
+        path_part, _, q_part = s.partition("?")
+        # (no alias name anywhere in the path: filling '**' with zero levels would make another segment the last one,
+        #  and aliases are expanded in the last segment only)
+        if s.count("/**") == 1 and "," not in path_part and not any(sg in ref.alias for sg in path_part.split("/")) and ">" not in s:
             acc = set()
             try:
                 for n in range(0, ref.maxlen + 1):
-                    filled = s.replace("/**", "/*" * n)
-                    # the filled *string* must complete to a leaf type (a filter that deepens a shorter string is another search)
-                    flen = len(filled.partition("?")[0].split("/"))
-                    Un = [u for u in unfold_search(filled) if ref.is_leaf_type(u.type) and len(ref.keys(u.type)) == flen]
-                    for u in Un:
-                        acc |= set(find(f, u.uri))
+                    filled = path_part.replace("/**", "/*" * n)
+                    for t in ref.all_types(filled):
+                        if ref.is_leaf_type(t):
+                            acc |= set(find(f, t + ":" + filled + ("?" + q_part if q_part else "")))
                 n_inst += 1
-                if ">" not in s and acc != R:
+                if acc != R:
                     bad(f"dstar-differs-from-union-of-star-fillings/{fname}", [sorted(R - acc)[:4], sorted(acc - R)[:4]], "equal")
             except SpilException:
                 pass
